@@ -4,9 +4,8 @@
    impl_from_dict    model of the generated from_dict; calls the kernels translated from /repo
                      on every run (VerifGen.K4: get_field_alias, key_plan, allowed_keys)
    code_from_dict    kernel-free description of the same (KeyProofs.v)
-   in_domain c       class has an init field or forbid_extra_keys is off; no field's resolved
-                     alias is ""; the discriminator field is not "" (the excluded corners are
-                     refuted below: listed findings C09/empty-alias, C09/fieldless-forbid-extra) *)
+   in_domain c       no field's resolved alias is ""; the discriminator field is not "" (the excluded
+                     corner is refuted below: listed finding C09/empty-alias) *)
 From Coq Require Import List String Ascii ZArith Bool.
 From Verif Require Import Regex PyK PyK_alias KeyModel KeyImpl KeyProofs.
 From VerifGen Require Import K4.
@@ -58,13 +57,6 @@ Proof.
   destruct empty_alias_refuted as [H1 H2]. rewrite H1, H2 in H. discriminate H.
 Qed.
 Print Assumptions C09_keys_refuted_empty_alias.
-
-Theorem C09_keys_refuted_fieldless : ~ C09_keys_full.
-Proof.
-  intro H. specialize (H w_fieldless [(KeyS "x", 1%Z)]).
-  destruct fieldless_refuted as [H1 H2]. rewrite H1, H2 in H. discriminate H.
-Qed.
-Print Assumptions C09_keys_refuted_fieldless.
 
 (* ---- what KEYMODEL says (and hence the code, inside the domain) ---- *)
 
